@@ -20,11 +20,7 @@ Definition quad (x y : V2 * V2) : list V2 := [fst x; fst y; snd y; snd x].
 Definition quads (L : list (V2 * V2)) : list (list V2) := map (fun p => quad (fst p) (snd p)) (segs L).
 
 (* ---------------------------------------------------------------- (3) sub-rectangle layout *)
-(* Python 3 round(): half to even *)
-Definition py_round (x : Q) : Z :=
-  let f := Qfloor x in
-  let r := x - inject_Z f in
-  if Qlt_bool r (1#2) then f else if Qlt_bool (1#2) r then (f + 1)%Z else if Z.even f then f else (f + 1)%Z.
+(* Python 3 round() (half to even) is Base.py_round *)
 
 (* a regular array of equal rectangles in the parent rectangle's own coordinates (x along the base, y up):
    cols columns whose centres are  c0 + j*pitch,  rows rows whose bottoms are y0 + i*rpitch, each w x h *)
